@@ -57,6 +57,7 @@ let () =
         | "read" :: _ -> Some (ORead (zi 1, zi 2, zi 3))
         | "detach" :: _ -> Some (ODetach (zi 1))
         | "attach" :: _ -> Some (OAttach (zi 1, (nth 2 = "w")))
+        | "attachto" :: _ -> Some (OAttachTo (zi 1, zi 2, (nth 3 = "w")))
         | "reopen" :: _ -> Some OReopen
         | "inquire" :: _ -> Some (OInquire (zi 1))
         | "elts" :: _ -> Some (OElts (zi 1))
